@@ -78,10 +78,29 @@ def r1_comment_recogniser(ctx, rep):
     # _match_docmark never matches inside an open literal
     md = py.func("reader._match_docmark")
     mev = astq.trace(md)
-    first = next((e for e in mev if e.kind in ("return", "call")), None)
-    ok = first is not None and first.kind == "return" and any(c == "in_quote" for c in first.cond_texts()) and \
-        (first.value is None or ast.unparse(first.value) == "None")
-    rep.ob("_match_docmark is disabled inside an open literal", ok, "", py.nloc(md))
+    params = [a.arg for a in md.args.args]
+    if len(params) < 3:
+        raise AnalysisError("_match_docmark: expected (pattern, line, open-literal flag)")
+    line_p, quote_p = params[1], params[2]
+    def inside(e) -> bool:       # the event runs on a path on which the line starts inside an open literal
+        return any(c == quote_p or c.startswith(quote_p + " ") for c in e.cond_texts())
+    def outside(e) -> bool:
+        return any(c == f"not ({quote_p})" for c in e.cond_texts())
+    matches = [e for e in mev if e.kind == "call" and isinstance(e.node.func, ast.Attribute) and e.node.func.attr in ("match", "search", "fullmatch")]
+    if not matches:
+        raise AnalysisError("_match_docmark: no regex match call found")
+    raw_inside = [e for e in matches if not outside(e) and e.node.args and ast.unparse(e.node.args[0]) == line_p and
+                  not any(ev.kind == "assign" and ev.target == line_p and inside(ev) for ev in mev)]
+    rep.ob("_match_docmark never searches the text of an open literal for comments", not raw_inside,
+           "inside a literal continued from the previous line, the raw line is not handed to the comment regex" if not raw_inside else
+           f"`{raw_inside[0].text()}` is applied to the raw line although it starts inside a character literal: a `!` in the "
+           f"literal is taken for a comment", py.nloc(md))
+    searched = [e for e in matches if not outside(e)]
+    rep.ob("comments after the end of a continued literal are recognised", bool(searched),
+           "the rest of the line after the closing quote is searched" if searched else
+           f"while `{quote_p}` holds _match_docmark returns None for the whole line: on the line that closes a continued literal a "
+           f"trailing comment stays in the statement (and is scanned as code), and an inline doc comment is lost", py.nloc(md),
+           nontrivial=not searched)
 
 
 def r2_literal_recogniser(ctx, rep):
@@ -96,12 +115,41 @@ def r2_literal_recogniser(ctx, rep):
     rep.ob("QUOTES_RE matches start at a quote character", w is None, "", py.nloc(node), witness=w)
 
 
+def open_literal_scanner(py):
+    """(function, call in FortranReader.__next__): the scanner whose answer on the joined buffer tells the reader that the next
+    line starts inside a character literal - found by role: its result is what the comment matchers receive as their
+    open-literal argument.  One-line wrappers (`return bool(f(x))`) are followed to the function that has the loop."""
+    nx = py.func("FortranReader.__next__")
+    md = py.func("reader._match_docmark")
+    flag_args = {ast.unparse(c.args[2]) for c in py.walk_calls(nx) if call_name(c).split(".")[-1] == md.name and len(c.args) >= 3}
+    if len(flag_args) != 1:
+        raise AnalysisError(f"FortranReader.__next__: the open-literal argument of the comment matchers is not a single name ({sorted(flag_args)})")
+    flag = flag_args.pop()
+    calls = [v for _t, v in astq.assignments(nx, flag) if isinstance(v, ast.Call)]
+    if not calls:
+        raise AnalysisError(f"FortranReader.__next__: `{flag}` is not assigned from a scanner call")
+    call = calls[0]
+    name = call_name(call).split(".")[-1]
+    for _ in range(3):
+        if not py.has_func(f"reader.{name}"):
+            raise AnalysisError(f"scanner `{name}` not found in reader.py")
+        fn = py.func(f"reader.{name}")
+        body = [st for st in fn.body if not (isinstance(st, ast.Expr) and isinstance(st.value, ast.Constant))]
+        if len(body) == 1 and isinstance(body[0], ast.Return):
+            inner = [c for c in ast.walk(body[0].value) if isinstance(c, ast.Call) and py.has_func(f"reader.{call_name(c).split('.')[-1]}")]
+            if len(inner) == 1:
+                name = call_name(inner[0]).split(".")[-1]
+                continue
+        return fn, call
+    raise AnalysisError("open-literal scanner: wrapper chain too long")
+
+
 def r3_scanners(ctx, rep):
     py = ctx.py
-    fn = py.func("reader._contains_unterminated_string")
+    fn, scan_call = open_literal_scanner(py)
     impl = fsmx.extract_unterminated(fn, py.module_env(py.module_of(fn)))
     w, n = fsmx.compare_acceptors(impl, fsmx.ref_unterminated())
-    rep.ob("_contains_unterminated_string == 'ends inside a literal'", w is None,
+    rep.ob("open-literal scanner == 'ends inside a literal'", w is None,
            f"equivalent for strings of every length ({n} product states)" if w is None else
            f"after reading `{w}` the function answers {impl_answer(impl, w)} "
            f"but the string {'is' if fsmx_ref_in(w or '') else 'is not'} inside a literal ({n} product states explored): "
@@ -116,9 +164,8 @@ def r3_scanners(ctx, rep):
     # the reader uses them as intended
     nx = py.func("FortranReader.__next__")
     t = ast.unparse(nx)
-    uq = [c for c in py.walk_calls(nx) if call_name(c).endswith("_contains_unterminated_string") and [ast.unparse(a) for a in c.args] == ["linebuffer"]]
-    qs = [c for c in py.walk_calls(nx) if call_name(c).endswith("quote_split") and [ast.unparse(a) for a in c.args[:2]] == ["';'", "linebuffer"]]
-    ok = bool(uq) and bool(qs)
+    qs = [c for c in py.walk_calls(nx) if call_name(c).endswith("quote_split") and len(c.args) >= 2 and ast.unparse(c.args[0]) == "';'"]
+    ok = bool(qs) and bool(scan_call.args) and ast.unparse(scan_call.args[0]) == ast.unparse(qs[0].args[1])
     rep.ob("reader uses the scanners on the joined buffer", ok, "", py.nloc(nx))
 
 
